@@ -36,7 +36,7 @@ QUICK_VALIDATE = 4
 def cases(tier):
     out = [dict(kind='negotiate'), dict(kind='keepalive', traffic=0), dict(kind='keepalive', traffic=1),
            dict(kind='keepalive', traffic=2), dict(kind='keepalive', traffic=3),
-           dict(kind='idle', peer='silent'), dict(kind='idle', peer='silent', pending=1), dict(kind='idle', peer='alive'),
+           dict(kind='idle', peer='silent'), dict(kind='idle', peer='silent', pending=1), dict(kind='idle', peer='silent', ka=1), dict(kind='idle', peer='alive'),
            dict(kind='idle', peer='trickle'),
            dict(kind='modulate', acks=2)]
     if tier == 'thorough':
@@ -64,7 +64,7 @@ def harness(case, tier):
         ka_a = ka_b = idle_a = 0
     if kind == 'keepalive':
         idle_a = 0
-    if kind == 'idle':
+    if kind == 'idle' and not case.get('ka'):
         ka_a = 0
     w = World(mkcfg('dtn://a/', keepalive_time=ka_a, idle_time=idle_a, segment_size_mru=mru_a,
                     segment_size_tx_initial=seg_a, **extra_a),
@@ -190,6 +190,32 @@ def harness(case, tier):
         c.prove(not w.escaped(), 'no-callback-exception', detail=[repr(e) for (_s, e) in w.escaped()])
         c.prove(w.a._state == 'established' and w.b._state == 'established', 'keepalives-keep-session-up')
         return {'class': cls, 'keepalives': sent_ka}
+
+    if kind == 'idle' and case.get('ka'):
+        # keepalive negotiated (interval not longer than the idle time): the endpoint terminates, the peer is silent.
+        # Its own KEEPALIVEs are not something heard from the peer: it still ends by closing.
+        c.assume(idle_a > 0)
+        c.assume(ka > 0)
+        c.assume(ka <= idle_a)
+        c.assume(idle_a <= 3 * ka)
+        # the peer is dead: none of its timers runs any more
+        for s_ in [x for x in list(GLib.STATE.sources.values()) if x.kind == 'timeout' and w.owner(x) == 'B']:
+            GLib.source_remove(s_.sid)
+        w.a.terminate(0)
+        w.run(300, sides=('A',))
+        for _ in range(8):
+            if 'A' in w.closed_socks:
+                break
+            src = w.advance_to_next_timer()
+            if src is None:
+                break
+            for s_ in [x for x in w.enabled(timers=True) if x.kind == 'timeout' and w.owner(x) == 'A']:
+                w.dispatch(s_)
+            w.run(300, sides=('A',))
+        c.prove(not w.escaped(), 'no-callback-exception[terminating-and-silent,keepalive-on]', detail=[repr(e) for (_s, e) in w.escaped()])
+        c.prove('A' in w.closed_socks, 'terminating-and-silent-ends-by-closing[keepalive-on]',
+                detail=dict(state=w.a._state, now=GLib.STATE.now_ms))
+        return {'class': cls}
 
     if kind == 'idle' and case['peer'] == 'trickle':
         # traffic that is not a whole message: one message of the peer arrives in two reads, each gap shorter than the
